@@ -1,0 +1,116 @@
+//go:build verif
+
+// Router typestate (C09): which gin router groups carry the auth middleware, and
+// whether a route or a non-benign middleware was ever registered on a chain
+// that does not. Assumed contracts of gin's registration API; NewServer of each
+// port is then verified against "no route ahead of the auth middleware".
+// Comment-only; compiled only with -tags verif.
+
+package middleware
+
+//   grpAuth[g]    the handler chain of router group g contains Auth.Verify
+//   gOpenRoute    a route, or a middleware that is not known to be benign, was
+//                 registered on a chain without Auth.Verify ahead of it
+//   gNoRoute      a NoRoute handler was set (it runs on the engine's chain as it is at the end)
+//   gEngine       the engine made by gin.New in this construction
+//   gRoutes       number of routes registered
+
+//@ ghost grpAuth arr[bool]
+//@ ghost gOpenRoute bool
+//@ ghost gNoRoute bool
+//@ ghost gEngine *gin.Engine
+//@ ghost gRoutes int
+
+// A middleware is benign when it neither answers the request nor reaches an
+// upstream/another node: recovery, access log, metrics.
+//@ uninterp benignMw(h gin.HandlerFunc) bool
+//@ pure isAuthMw(h gin.HandlerFunc) bool = fnIs(h, "(*github.com/andydunstall/piko/pkg/middleware.Auth).Verify")
+// ... and is the middleware object made by NewAuth in this construction
+//@ pure hasAuth(hs []gin.HandlerFunc) bool = exists i int :: 0 <= i && i < len(hs) && isAuthMw(hs[i]) && recvOf(hs[i], "*Auth") == gAuthObj && gAuthObj != nil
+//@ pure openBefore(hs []gin.HandlerFunc) bool = exists i int :: 0 <= i && i < len(hs) && !isAuthMw(hs[i]) && !benignMw(hs[i]) && (forall j int :: 0 <= j && j < i ==> !isAuthMw(hs[j]))
+
+//@ havoc-on github.com/gin-gonic/gin.(*RouterGroup). $gOpenRoute $grpAuth
+//@ havoc-on github.com/gin-gonic/gin.(*Engine). $gOpenRoute $grpAuth $gNoRoute
+
+//@ extern github.com/gin-gonic/gin.New
+//@   modifies-all $gEngine $grpAuth
+//@   requires[single-engine] gEngine == nil
+//@   ensures[fresh] result != nil && fresh(result)
+//@   ghost-set gEngine = result
+//@   ghost-set grpAuth = store(old(grpAuth), addr(result.RouterGroup), false)
+
+//@ extern github.com/gin-gonic/gin.(*Engine).Use
+//@   modifies-all $grpAuth $gOpenRoute
+//@   ghost-set gOpenRoute = old(gOpenRoute) || (!old(grpAuth[addr(engine.RouterGroup)]) && openBefore(middleware))
+//@   ghost-set grpAuth = store(old(grpAuth), addr(engine.RouterGroup), old(grpAuth[addr(engine.RouterGroup)]) || hasAuth(middleware))
+
+//@ extern github.com/gin-gonic/gin.(*Engine).NoRoute
+//@   modifies-all $gNoRoute
+//@   ghost-set gNoRoute = true
+
+//@ extern github.com/gin-gonic/gin.(*RouterGroup).Use
+//@   modifies-all $grpAuth $gOpenRoute
+//@   ghost-set gOpenRoute = old(gOpenRoute) || (!old(grpAuth[group]) && openBefore(middleware))
+//@   ghost-set grpAuth = store(old(grpAuth), group, old(grpAuth[group]) || hasAuth(middleware))
+
+//@ extern github.com/gin-gonic/gin.(*RouterGroup).Group
+//@   modifies-all $grpAuth $gOpenRoute
+//@   ensures[fresh] result != nil && fresh(result)
+//@   ghost-set gOpenRoute = old(gOpenRoute) || (!old(grpAuth[group]) && openBefore(handlers))
+//@   ghost-set grpAuth = store(old(grpAuth), result, old(grpAuth[group]) || hasAuth(handlers))
+
+//@ extern github.com/gin-gonic/gin.(*RouterGroup).GET
+//@   modifies-all $gOpenRoute $gRoutes
+//@   ghost-set gOpenRoute = old(gOpenRoute) || !grpAuth[group]
+//@   ghost-set gRoutes = old(gRoutes) + 1
+//@ extern github.com/gin-gonic/gin.(*RouterGroup).POST
+//@   modifies-all $gOpenRoute $gRoutes
+//@   ghost-set gOpenRoute = old(gOpenRoute) || !grpAuth[group]
+//@   ghost-set gRoutes = old(gRoutes) + 1
+//@ extern github.com/gin-gonic/gin.(*RouterGroup).PUT
+//@   modifies-all $gOpenRoute $gRoutes
+//@   ghost-set gOpenRoute = old(gOpenRoute) || !grpAuth[group]
+//@   ghost-set gRoutes = old(gRoutes) + 1
+//@ extern github.com/gin-gonic/gin.(*RouterGroup).DELETE
+//@   modifies-all $gOpenRoute $gRoutes
+//@   ghost-set gOpenRoute = old(gOpenRoute) || !grpAuth[group]
+//@   ghost-set gRoutes = old(gRoutes) + 1
+//@ extern github.com/gin-gonic/gin.(*RouterGroup).PATCH
+//@   modifies-all $gOpenRoute $gRoutes
+//@   ghost-set gOpenRoute = old(gOpenRoute) || !grpAuth[group]
+//@   ghost-set gRoutes = old(gRoutes) + 1
+//@ extern github.com/gin-gonic/gin.(*RouterGroup).HEAD
+//@   modifies-all $gOpenRoute $gRoutes
+//@   ghost-set gOpenRoute = old(gOpenRoute) || !grpAuth[group]
+//@   ghost-set gRoutes = old(gRoutes) + 1
+//@ extern github.com/gin-gonic/gin.(*RouterGroup).OPTIONS
+//@   modifies-all $gOpenRoute $gRoutes
+//@   ghost-set gOpenRoute = old(gOpenRoute) || !grpAuth[group]
+//@   ghost-set gRoutes = old(gRoutes) + 1
+//@ extern github.com/gin-gonic/gin.(*RouterGroup).Any
+//@   modifies-all $gOpenRoute $gRoutes
+//@   ghost-set gOpenRoute = old(gOpenRoute) || !grpAuth[group]
+//@   ghost-set gRoutes = old(gRoutes) + 1
+//@ extern github.com/gin-gonic/gin.(*RouterGroup).Handle
+//@   modifies-all $gOpenRoute $gRoutes
+//@   ghost-set gOpenRoute = old(gOpenRoute) || !grpAuth[group]
+//@   ghost-set gRoutes = old(gRoutes) + 1
+
+//@ extern github.com/gin-gonic/gin.CustomRecoveryWithWriter
+//@   ensures[benign] result != nil && benignMw(result)
+//@ extern github.com/gin-gonic/gin.WrapF
+//@   ensures[nonnil] result != nil
+//@ extern github.com/gin-gonic/gin.WrapH
+//@   ensures[nonnil] result != nil
+
+//@ contract NewLogger
+//@   trusted the access-log middleware logs and calls Next: it answers nothing and reaches no upstream
+//@   ensures[benign] result != nil && benignMw(result)
+//@ contract NewMetrics
+//@   trusted metrics middleware constructor
+//@   ensures[fresh] result != nil && fresh(result)
+//@ contract (*Metrics).Handler
+//@   trusted the metrics middleware counts and calls Next: it answers nothing and reaches no upstream
+//@   ensures[benign] result != nil && benignMw(result)
+//@ contract (*Metrics).Register
+//@   trusted registers collectors with prometheus
